@@ -43,7 +43,7 @@ ALPHABETS = [
     ["ch", "firenet", "svc"],
 ]
 FOREIGN = "zz"
-FORMS = ["bare", "http", "schemeless", "upper", "dot", "split", "auth", "httpdot"]
+FORMS = ["bare", "http", "schemeless", "upper", "dot", "split", "auth", "httpdot", "auth2", "dotport"]
 NET_FAULTS = ["net_refused", "net_reset_on_read", "net_truncated", "net_garbage", "net_stale"]
 DISK_FAULTS = ["disk_open_error", "disk_write_error", "disk_close_error", "crash_during_write", "crash_between"]
 FAULT_KINDS = NET_FAULTS + DISK_FAULTS
@@ -140,6 +140,10 @@ def render(labels, form):
         u = "https://%s./index.html" % host.title()
     elif form == "auth":
         u = "ftp://user:pw@%s/" % host
+    elif form == "auth2":
+        u = "http://first.last:p-w%%40d~@%s:8080/x?y#z" % host
+    elif form == "dotport":
+        u = "https://%s.:8443/" % host.upper()
     elif form == "split":
         from ural.utils import urlsplit
 
@@ -200,7 +204,7 @@ def discrepancy(api, rules, labels, form):
         exp_s = exp[1] if exp is not None else None
         if got_s != exp_s:
             return {"invariant": "extract_suffix", "got": got_s, "expected": exp_s, "host": ".".join(labels), "form": form}
-    if api.tld is not None and form not in ("dot", "httpdot"):
+    if api.tld is not None and form not in ("dot", "httpdot", "dotport"):
         tld = api.tld
         last = labels[-1]
         a = tld.has_valid_tld(url)
